@@ -385,39 +385,10 @@ Qed.
 (* since /repo d64b8e2 the sort key of every element is defined *)
 Lemma seq_key_ok f e : exists k, seq_key f e = Ok k.
 Proof.
-  unfold seq_key. destruct (String.eqb f ""); [eauto|]. apply scan_field_total.
+  unfold seq_key. destruct (String.eqb f ""); [eauto|]. destruct e; eauto. apply scan_field_total.
 Qed.
 
-(* ---------- keyed_ok / wf_keys: unfolding ---------- *)
-
-Lemma keyed_ok_map kind api p h kvs :
-  keyed_ok kind api p (CMap h kvs) = true ->
-  Forall (fun kv => keyed_ok kind api p (fst kv) = true /\
-                    keyed_ok kind api (p ++ "." ++ cvalue (fst kv)) (snd kv) = true) kvs.
-Proof.
-  cbn [keyed_ok]. induction kvs as [|kv t IH]; intros H; constructor.
-  - apply andb_true_iff in H. destruct H as [H _]. apply andb_true_iff in H. exact H.
-  - apply IH. apply andb_true_iff in H. apply H.
-Qed.
-
-Lemma keyed_ok_seq kind api p h es :
-  keyed_ok kind api p (CSeq h es) = true -> Forall (fun e => keyed_ok kind api p e = true) es.
-Proof.
-  cbn [keyed_ok]. intros H. apply andb_true_iff in H. destruct H as [_ H].
-  induction es as [|e t IH]; constructor.
-  - apply andb_true_iff in H. apply H.
-  - apply IH. apply andb_true_iff in H. apply H.
-Qed.
-
-Lemma keyed_ok_elems kind api p h es f e :
-  keyed_ok kind api p (CSeq h es) = true -> sort_field kind api p = Some f -> In e es ->
-  String.eqb f "" = true \/ is_seq_node e = false.
-Proof.
-  cbn [keyed_ok]. intros H SF Hin. rewrite SF in H.
-  apply andb_true_iff in H. destruct H as [H _]. apply orb_true_iff in H.
-  destruct H as [H|H]; auto. right.
-  rewrite forallb_forall in H. specialize (H e Hin). destruct (is_seq_node e); auto; discriminate.
-Qed.
+(* ---------- wf_keys: unfolding ---------- *)
 
 Lemma nodup_strs_NoDup l : nodup_strs l = true -> NoDup l.
 Proof.
@@ -522,34 +493,38 @@ Section Instances.
          Permutation (srt _ (lt_fst less_key) D) D /\
          filter (fun d => String.eqb (fst d) f) (srt _ (lt_fst less_key) D) =
          filter (fun d => String.eqb (fst d) f) D) ->
-    forall f e, (String.eqb f "" = true \/ is_seq_node e = false) -> cond e ->
+    forall f e, cond e ->
     forall s p e' k,
       fmt_node nonstr srt kind api s p e = Ok e' -> seq_key f e = Ok k -> seq_key f e' = Ok k.
   Proof.
-    intros Hst f e Hel Hc s p e' k Hf Hk.
+    intros Hst f e Hc s p e' k Hf Hk.
     destruct (String.eqb f "") eqn:Ef.
     - unfold seq_key in *. rewrite Ef in *. rewrite (fmt_cvalue _ _ _ _ _ _ _ _ Hf). exact Hk.
-    - destruct Hel as [E|E]; [congruence|].
-      destruct e as [h0 v|h0 kvs|h0 es0|h0 v]; try discriminate.
+    - destruct e as [h0 v|h0 kvs|h0 es0|h0 v].
       + cbn in Hf. inv Hf. exact Hk.
       + eapply map_elem_keeps_key; eauto.
+      + (* a nested sequence is not a keyed element: its key is "" before and after *)
+        rewrite fmt_seq_eq in Hf. apply bind_ok in Hf. destruct Hf as [es' [_ Hf]].
+        unfold seq_key in *. rewrite Ef in *.
+        destruct (sort_field kind api p).
+        * apply bind_ok in Hf. destruct Hf as [ks [_ Hf]]. inv Hf. exact Hk.
+        * inv Hf. exact Hk.
       + cbn in Hf. inv Hf. exact Hk.
   Qed.
 
-  (* ---------- idempotence with the stable sort Go uses up to 12 elements ---------- *)
+  (* ---------- idempotence with the stable sort (sort.Stable): every node ---------- *)
   Theorem fmt_idem_isort : forall n s p n',
-    keyed_ok kind api p n = true ->
     fmt_node nonstr isort kind api s p n = Ok n' -> fmt_node nonstr isort kind api s p n' = Ok n'.
   Proof.
-    apply (fmt_idem_gen nonstr isort kind api isort_S1 (keyed_ok kind api)).
-    - apply keyed_ok_map.
-    - apply keyed_ok_seq.
-    - intros p h es f Hok SF e Hin s e' k.
+    intros n s p n'.
+    apply (fmt_idem_gen nonstr isort kind api isort_S1 (fun _ _ => true)); auto.
+    - intros p0 h kvs _. rewrite Forall_forall. auto.
+    - intros p0 h es _. rewrite Forall_forall. auto.
+    - intros p0 h es f _ SF e Hin s0 e' k.
       apply (elem_keeps_key isort (fun _ => True)); auto.
-      + intros s0 p0 h0 kvs f0 _ D _. unfold isort. split.
-        * apply isort_perm.
-        * apply (isort_filter less_key less_key_strict_total).
-      + eapply keyed_ok_elems; eauto.
+      intros s1 p1 h0 kvs f0 _ D _. unfold isort. split.
+      + apply isort_perm.
+      + apply (isort_filter less_key less_key_strict_total).
   Qed.
 
   (* ---------- idempotence with ANY sort meeting (S1), for documents with unique keys ---------- *)
@@ -587,22 +562,14 @@ Section Instances.
     - apply Permutation_sym, Permutation_length_1_inv in P. exact P.
   Qed.
 
-  Definition ok_wf (p : string) (n : cnode) : bool := keyed_ok kind api p n && wf_keys n.
-
   Theorem fmt_idem_S1 srt : S1 srt -> forall n s p n',
-    keyed_ok kind api p n = true -> wf_keys n = true ->
+    wf_keys n = true ->
     fmt_node nonstr srt kind api s p n = Ok n' -> fmt_node nonstr srt kind api s p n' = Ok n'.
   Proof.
-    intros HS1 n s p n' K W. apply (fmt_idem_gen nonstr srt kind api HS1 ok_wf).
-    - intros p0 h kvs H. unfold ok_wf in *. apply andb_true_iff in H. destruct H as [H1 H2].
-      apply keyed_ok_map in H1. apply wf_keys_map in H2. destruct H2 as [_ H2].
-      rewrite Forall_forall in *. intros kv Hin. destruct (H1 kv Hin), (H2 kv Hin).
-      split; apply andb_true_iff; auto.
-    - intros p0 h es H. unfold ok_wf in *. apply andb_true_iff in H. destruct H as [H1 H2].
-      apply keyed_ok_seq in H1. apply wf_keys_seq in H2.
-      rewrite Forall_forall in *. intros e Hin. apply andb_true_iff; auto.
+    intros HS1 n s p n' W. apply (fmt_idem_gen nonstr srt kind api HS1 (fun _ n => wf_keys n)); auto.
+    - intros p0 h kvs H. apply wf_keys_map in H. destruct H as [_ H]. exact H.
+    - intros p0 h es H. apply wf_keys_seq in H. exact H.
     - intros p0 h es f H SF e Hin s0 e' k.
-      unfold ok_wf in H. apply andb_true_iff in H. destruct H as [H1 H2].
       apply (elem_keeps_key srt (fun e => wf_keys e = true)).
       + intros s1 p1 h0 kvs f0 Wk D HD.
         destruct (HS1 _ less_key less_key_strict_total D) as [HP _]. split; [exact HP|].
@@ -610,10 +577,8 @@ Section Instances.
         apply wf_keys_map in Wk. destruct Wk as [Nd _].
         assert (map fst D = key_values kvs).
         { clear - HD. unfold key_values. induction HD as [|kv d t D' [R1 _] _ IH]; cbn; congruence. }
-        rewrite H. exact Nd.
-      + eapply keyed_ok_elems; eauto.
-      + apply wf_keys_seq in H2. rewrite Forall_forall in H2. auto.
-    - unfold ok_wf. rewrite K, W. reflexivity.
+        rewrite H0. exact Nd.
+      + apply wf_keys_seq in H. rewrite Forall_forall in H. auto.
   Qed.
 End Instances.
 
@@ -852,14 +817,13 @@ Definition wit_panic : cnode := wit_deployment (wq [wq [ws "name"]; wq [ws "name
 Definition wit_dup_sortfield : cnode :=
   wit_deployment (wq [wm [("name", ws "c"); ("zz", ws "1"); ("name", ws "a")]; wm [("name", ws "b")]]).
 
-Theorem fmt_idem_refuted : forall nonstr, exists n n1 n2,
-  wf_keys n = true /\
-  filter_doc nonstr isort SNil n = Ok n1 /\ filter_doc nonstr isort SNil n1 = Ok n2 /\ n1 <> n2.
+(* regression (repair "keyed elements are mappings"): the document whose nested list made formatting
+   unstable is now formatted to a fixed point in one pass *)
+Example wit_nested_seq_now_idempotent : forall nonstr, exists n1,
+  filter_doc nonstr isort SNil wit_nested_seq = Ok n1 /\ filter_doc nonstr isort SNil n1 = Ok n1 /\
+  n1 <> wit_nested_seq.
 Proof.
-  intros nonstr. exists wit_nested_seq. eexists. eexists.
-  split; [vm_compute; reflexivity|].
-  split; [vm_compute; reflexivity|].
-  split; [vm_compute; reflexivity|].
+  intros nonstr. eexists. split; [vm_compute; reflexivity|]. split; [vm_compute; reflexivity|].
   apply cnode_neq. vm_compute. reflexivity.
 Qed.
 
@@ -871,17 +835,23 @@ Proof.
   intros nonstr. eexists. split; vm_compute; reflexivity.
 Qed.
 
-(* with a sort that meets (S1) but is not stable, duplicate sort fields break idempotence *)
-Theorem fmt_idem_S1_refuted : forall nonstr, exists srt, S1 srt /\ exists n n1 n2,
-  keyed_ok "Deployment" "apps/v1" "" n = true /\
-  filter_doc nonstr srt SNil n = Ok n1 /\ filter_doc nonstr srt SNil n1 = Ok n2 /\ n1 <> n2.
+(* regression (repair "sort.Stable"): why the sort has to be stable.  With a sort that meets (S1) but is
+   not stable — sort.Sort beyond 12 elements — a duplicate sort field breaks idempotence ... *)
+Example unstable_sort_breaks_idempotence : forall nonstr, exists srt, S1 srt /\ exists n1 n2,
+  filter_doc nonstr srt SNil wit_dup_sortfield = Ok n1 /\ filter_doc nonstr srt SNil n1 = Ok n2 /\ n1 <> n2.
 Proof.
   intros nonstr. exists rsort. split; [apply rsort_S1|].
-  exists wit_dup_sortfield. eexists. eexists.
-  split; [vm_compute; reflexivity|].
+  eexists. eexists.
   split; [vm_compute; reflexivity|].
   split; [vm_compute; reflexivity|].
   apply cnode_neq. vm_compute. reflexivity.
+Qed.
+
+(* ... and with the stable sort the same document is a fixed point after one pass *)
+Example wit_dup_sortfield_now_idempotent : forall nonstr, exists n1,
+  filter_doc nonstr isort SNil wit_dup_sortfield = Ok n1 /\ filter_doc nonstr isort SNil n1 = Ok n1.
+Proof.
+  intros nonstr. eexists. split; vm_compute; reflexivity.
 Qed.
 
 (* the hypotheses of the positive theorems are met by a document that really gets reordered *)
@@ -892,10 +862,10 @@ Definition wit_ordinary : cnode :=
       ("apiVersion", ws "apps/v1"); ("alpha", ws "2")].
 
 Example wit_ordinary_nonvacuous : forall nonstr,
-  keyed_ok "Deployment" "apps/v1" "" wit_ordinary = true /\ wf_keys wit_ordinary = true /\
+  wf_keys wit_ordinary = true /\
   exists n1, filter_doc nonstr isort SNil wit_ordinary = Ok n1 /\ n1 <> wit_ordinary.
 Proof.
-  intros nonstr. split; [vm_compute; reflexivity|]. split; [vm_compute; reflexivity|].
+  intros nonstr. split; [vm_compute; reflexivity|].
   eexists. split; [vm_compute; reflexivity|]. apply cnode_neq. vm_compute. reflexivity.
 Qed.
 
@@ -1073,8 +1043,6 @@ Proof.
       * unfold kv_strs. rewrite map_map. cbn.
         eapply perm_NoDup_map; [exact P|exact Nd].
       * unfold kv_strs. apply Permutation_map. exact P.
-    + unfold seq_key. rewrite Ef. cbn [content]. apply scan_field_cvalue.
-      clear - F. induction F; constructor; auto. apply mperm_cvalue. auto.
 Qed.
 
 Lemma Forall2_perm_l {A B} (R : A -> B -> Prop) l1 l1' l2 :
@@ -1196,12 +1164,6 @@ Proof. vm_compute. reflexivity. Qed.
 
 (* ---------- the whole filter: FormatFilter.Filter on a document and on a stream ---------- *)
 
-Definition doc_keyed_ok (n : cnode) : bool :=
-  match get_field "kind" n, get_field "apiVersion" n with
-  | Ok (Some k), Ok (Some a) => keyed_ok (cvalue k) (cvalue a) "" n
-  | _, _ => true
-  end.
-
 Lemma find_pair_filter name kvs :
   find_pair name kvs =
   match filter (fun kv : cnode * cnode => String.eqb (cvalue (fst kv)) name) kvs with
@@ -1314,7 +1276,7 @@ Section DocIdem.
   Variable good : cnode -> Prop.
   Hypothesis good_keeps : forall kind api n, good n -> keeps_order nonstr srt kind api n.
   Hypothesis good_sub : forall h kvs, good (CMap h kvs) -> forall kv, In kv kvs -> good (snd kv).
-  Hypothesis idem : forall kind api n s p n', good n -> keyed_ok kind api p n = true ->
+  Hypothesis idem : forall kind api n s p n', good n ->
     fmt_node nonstr srt kind api s p n = Ok n' -> fmt_node nonstr srt kind api s p n' = Ok n'.
 
   Lemma get_field_good name n x : good n -> get_field name n = Ok (Some x) -> good x.
@@ -1360,10 +1322,10 @@ Section DocIdem.
   Qed.
 
   Theorem filter_doc_idem s n n' :
-    good n -> doc_keyed_ok n = true ->
+    good n ->
     filter_doc nonstr srt s n = Ok n' -> filter_doc nonstr srt s n' = Ok n'.
   Proof.
-    intros G DK H. unfold filter_doc in H.
+    intros G H. unfold filter_doc in H.
     destruct (get_strategy n) as [st| | |] eqn:ES; cbn [bind] in H; try discriminate.
     destruct st.
     2:{ inv H. unfold filter_doc. rewrite ES. reflexivity. }
@@ -1380,38 +1342,36 @@ Section DocIdem.
     rewrite EA in GA. destruct GA as [an' [EA' FA]]. rewrite EA'. cbn [bind].
     rewrite (fmt_of_cvalue _ _ _ _ FK), (fmt_of_cvalue _ _ _ _ FA).
     eapply idem; eauto.
-    unfold doc_keyed_ok in DK. rewrite EK, EA in DK. exact DK.
   Qed.
 
   Theorem filter_stream_idem docs outs :
-    Forall (fun d => good (fst d) /\ doc_keyed_ok (fst d) = true) docs ->
+    Forall (fun d => good (fst d)) docs ->
     filter_stream nonstr srt docs = Ok outs ->
     filter_stream nonstr srt (combine outs (map snd docs)) = Ok outs.
   Proof.
     unfold filter_stream. intros HG H. apply mapM_ok in H. apply mapM_ok.
     induction H as [|d o t t' Hd _ IH]; cbn; [constructor|].
-    inv HG. destruct H1 as [G K]. constructor; auto. cbn. eapply filter_doc_idem; eauto.
+    inv HG. constructor; auto. cbn. eapply filter_doc_idem; eauto.
   Qed.
 End DocIdem.
 
-(* stable sort: every node *)
+(* stable sort: every stream *)
 Theorem filter_stream_idem_isort nonstr docs outs :
-  Forall (fun d => doc_keyed_ok (fst d) = true) docs ->
   filter_stream nonstr isort docs = Ok outs ->
   filter_stream nonstr isort (combine outs (map snd docs)) = Ok outs.
 Proof.
-  intros HG. apply (filter_stream_idem nonstr isort (fun _ => True)).
+  apply (filter_stream_idem nonstr isort (fun _ => True)).
   - intros kind api n _ h kvs _ s p D name HD. unfold isort. split.
     + apply isort_perm.
     + apply (isort_filter less_key less_key_strict_total).
   - auto.
   - intros kind api n s p n' _. apply fmt_idem_isort.
-  - rewrite Forall_forall in *. intros d Hin. split; auto.
+  - rewrite Forall_forall. auto.
 Qed.
 
 (* any (S1) sort: documents with unique keys *)
 Theorem filter_stream_idem_S1 nonstr srt docs outs : S1 srt ->
-  Forall (fun d => wf_keys (fst d) = true /\ doc_keyed_ok (fst d) = true) docs ->
+  Forall (fun d => wf_keys (fst d) = true) docs ->
   filter_stream nonstr srt docs = Ok outs ->
   filter_stream nonstr srt (combine outs (map snd docs)) = Ok outs.
 Proof.
@@ -1425,7 +1385,7 @@ Proof.
     rewrite H. exact Nd.
   - intros h kvs W kv Hin. apply wf_keys_map in W. destruct W as [_ W].
     rewrite Forall_forall in W. apply (W kv Hin).
-  - intros kind api n s p n' W K. apply fmt_idem_S1; auto.
+  - intros kind api n s p n' W. apply fmt_idem_S1; auto.
   - exact HG.
 Qed.
 
